@@ -136,8 +136,43 @@ void runC17PGN(const Scenario& sc, vf::Result& res) {
         GameTree gt;
         int nLines = (int)r.range(1, 6);
         std::vector<Move> mainLine;
+        // some games start from a position with several like pieces (promoted queens, knights, rooks, bishops): short
+        // move forms then need file, rank or both to be unambiguous
+        Position startPos = TextIO::readFEN(TextIO::startPosFEN);
+        std::string fenTag;
+        if (r.chance(0.5)) {
+            for (int attempt = 0; attempt < 20; attempt++) {
+                Position q;
+                for (int sq = 0; sq < 64; sq++) q.setPiece(Square(sq), Piece::EMPTY);
+                std::vector<int> free;
+                for (int sq = 0; sq < 64; sq++) free.push_back(sq);
+                auto take = [&]() { size_t i = r.below(free.size()); int sq = free[i]; free.erase(free.begin() + (long)i); return sq; };
+                q.setPiece(Square(take()), Piece::WKING);
+                q.setPiece(Square(take()), Piece::BKING);
+                static const int wp[] = {Piece::WQUEEN, Piece::WROOK, Piece::WBISHOP, Piece::WKNIGHT}, bp[] = {Piece::BQUEEN, Piece::BROOK, Piece::BBISHOP, Piece::BKNIGHT};
+                int kinds = (int)r.range(1, 2);
+                for (int k = 0; k < kinds; k++) {
+                    int t = (int)r.below(4), nw = (int)r.range(2, 5), nb = (int)r.range(0, 4);
+                    for (int i = 0; i < nw; i++) q.setPiece(Square(take()), wp[t]);
+                    for (int i = 0; i < nb; i++) q.setPiece(Square(take()), bp[t]);
+                }
+                q.setWhiteMove(r.chance(0.5));
+                q.setCastleMask(0);
+                std::string fen = TextIO::toFEN(q);
+                try {
+                    Position chk = TextIO::readFEN(fen); // rejects e.g. the side not to move being in check, adjacent kings
+                    std::vector<Move> lm;
+                    uci::legalMoves(chk, lm);
+                    if (lm.empty()) continue;
+                    startPos = chk;
+                    fenTag = fen;
+                    break;
+                } catch (const ChessParseError&) {}
+            }
+        }
+        if (!fenTag.empty()) { gt.setStartPos(startPos); res.counters["probe_like_piece_games"]++; }
         for (int l = 0; l < nLines; l++) {
-            Position p = TextIO::readFEN(TextIO::startPosFEN);
+            Position p = startPos;
             UndoInfo ui;
             std::vector<Move> line;
             size_t keep = mainLine.empty() ? 0 : r.below(mainLine.size() + 1);
@@ -156,7 +191,7 @@ void runC17PGN(const Scenario& sc, vf::Result& res) {
         }
         std::string body = treeString(gt);
         expect.push_back(body);
-        pgn += "[Event \"e" + std::to_string(g) + "\"]\n[Site \"?\"]\n[Date \"2026.01.01\"]\n[Round \"1\"]\n[White \"w\"]\n[Black \"b\"]\n[Result \"*\"]\n\n";
+        pgn += "[Event \"e" + std::to_string(g) + "\"]\n[Site \"?\"]\n[Date \"2026.01.01\"]\n[Round \"1\"]\n[White \"w\"]\n[Black \"b\"]\n[Result \"*\"]\n" + (fenTag.empty() ? std::string() : "[FEN \"" + fenTag + "\"]\n[SetUp \"1\"]\n") + "\n";
         // wrap lines, add comments and NAGs
         std::vector<std::string> t = vf::splitWs(body);
         int col = 0;
